@@ -39,8 +39,8 @@ impl PrivateKey {
 }
 //@struct CipherKeys @ src/ecies/mod.rs clone
 //@struct ECIESCiphertext @ src/ecies/ecies_ciphertext.rs
-pub const PUB_KEY_OFFSET: u8 = 4;
-pub const PUB_KEY_END: u8 = 37;
+//@const PUB_KEY_OFFSET @ src/ecies/ecies_ciphertext.rs
+//@const PUB_KEY_END @ src/ecies/ecies_ciphertext.rs
 pub struct ECIES {}
 impl ECIES {
 //@fn ECIES::derive_cipher_keys_impl
